@@ -256,6 +256,7 @@ def main():
     ap.add_argument("--resume", action="store_true")
     ap.add_argument("--list", action="store_true")
     ap.add_argument("--no-suite", action="store_true")
+    ap.add_argument("--props", default=None, help="comma-separated property list to run instead of the per-file table")
     ap.add_argument("--retest", default=None, help="results file: re-run its survivors against ALL simulator properties")
     a = ap.parse_args()
     muts = enumerate_mutants(a.files.split(","), a.only_op)
@@ -298,7 +299,7 @@ def main():
                 except queue.Empty:
                     break
                 try:
-                    r = w.run_mutant(m, props_override=ALL if a.retest else None)
+                    r = w.run_mutant(m, props_override=a.props.split(",") if a.props else (ALL if a.retest else None))
                     if r["status"] == "survived" and not a.no_suite:
                         r["suite_passes"] = w.suite(m)
                 except Exception as e:
